@@ -1,0 +1,14 @@
+//go:build verif
+
+package piece
+
+import "github.com/jech/storrent/bitmap"
+
+// VerifData returns a copy of a piece's buffer and the bitmap of the blocks
+// it holds, whatever the piece's state (verification harness only).
+func (ps *Pieces) VerifData(index uint32) ([]byte, bitmap.Bitmap) {
+	ps.mu.RLock()
+	defer ps.mu.RUnlock()
+	p := &ps.pieces[index]
+	return append([]byte(nil), p.data...), p.bitmap.Copy()
+}
